@@ -47,20 +47,21 @@ def toposort2(data):
     for k, v in data.items():
         v.discard(k) # Ignore self dependencies
 
-    # add items that are listed as dependencies but not as dependents to data
-    extra_items_in_deps = reduce(set.union, data.values()) - set(data.keys())
-
-    # items with equal sort keys keep the order they have in ``data``, so that
-    # the result never depends on the iteration order of a set of objects
-    # (i.e. on memory addresses). For the extra items, that's the position of
-    # their first dependent.
-    rank = {}
-    for i, dep in enumerate(data.values()):
+    # add items that are listed as dependencies but not as dependents to data.
+    # Items with equal sort keys keep the order in which they are first met, so
+    # that the result never depends on the iteration order of a set of objects
+    # (i.e. on memory addresses) as long as the caller passes ordered
+    # collections.
+    seen = set(data.keys())
+    extra_items_in_deps = []
+    for dep in data.values():
         for item in dep:
-            rank.setdefault(item, i)
+            if item not in seen:
+                seen.add(item)
+                extra_items_in_deps.append(item)
 
     data.update([(item, set()) for item in sorted(extra_items_in_deps,
-                                    key=lambda x: (_sort_key(x), rank[x]))])
+                                                               key=_sort_key)])
 
     while True:
         ordered = [item for item, dep in data.items() if len(dep) == 0]
